@@ -10,6 +10,9 @@
 (*  k = "binop":  operand walks before / after an operator, cells the result     *)
 (*                shares with an operand                                         *)
 (* All failing clauses of a record are printed (one line per clause and place).  *)
+(* Clauses named note.* and noeffect are bookkeeping (counted), not verdicts: the  *)
+(* property promises complete, independent copies and untouched operands, not     *)
+(* which calls raise, what a sum contains or which private fields exist.           *)
 EXTENDS AliasOps, Json, IOUtils
 
 Recs == ndJsonDeserialize(IOEnv.TRACE_FILE)
@@ -28,15 +31,22 @@ Bad(c, w, e) == [clause |-> c, what |-> w, exp |-> ToJson(e)]
 (* ---- k = "copy" ------------------------------------------------------------- *)
 \* type of the entry at a path
 TypeAt(w, p) == LET es == {e \in ToSet(w) : e[1] = p} IN IF es = {} THEN "missing" ELSE (CHOOSE e \in es : TRUE)[2]
-\* entries that are an object's own ID (per schema): not compared between original and copy
-IsIdEntry(w, e) == Len(e[1]) >= 2 /\ LET t == TypeAt(w, Parent(e[1])) f == e[1][Len(e[1])]
-                                     IN  t \in Classes /\ f \in Fields(t) /\ Schema[t][f].k = "id"
-Comparable(w) == {e \in ToSet(w) : ~IsIdEntry(w, e)}
+Internal == {<<"Keyvalues", "line_num">>, <<"EntityFixup", "_matcher">>}
+\* entries not compared between original and copy: an object's own ID (per schema), and fields that
+\* never reach the exported text (source line number, cached regex) - the property is about what a
+\* copy EXPORTS
+Skipped(w, e) == Len(e[1]) >= 2 /\ LET t == TypeAt(w, Parent(e[1])) f == e[1][Len(e[1])]
+                                   IN  \/ <<t, f>> \in Internal
+                                       \/ (t \in Classes /\ f \in Fields(t) /\ Schema[t][f].k = "id")
+Comparable(w) == {e \in ToSet(w) : ~Skipped(w, e)}
 \* every object in the walk has exactly the fields of its class schema
 ClassFieldErrors(w) ==
     LET objs == {e \in ToSet(w) : e[2] \in Classes}
         kids(e) == {d[1][Len(d[1])] : d \in {x \in ToSet(w) : Len(x[1]) = Len(e[1]) + 1 /\ Parent(x[1]) = e[1]}}
-    IN  {Bad("schema.class", e[2], [path |-> e[1], unknown |-> kids(e) \ Fields(e[2]), missing |-> Fields(e[2]) \ kids(e)]) :
+    \* a field the schema does not know is walked, compared and mutated like any other (the heap walk is
+    \* generic): only noted.  A schema field the object lacks means the model cannot be replayed on it.
+    IN  {Bad(IF Fields(e[2]) \subseteq kids(e) THEN "note.schema.extra" ELSE "schema.class", e[2],
+             [path |-> e[1], unknown |-> kids(e) \ Fields(e[2]), missing |-> Fields(e[2]) \ kids(e)]) :
             e \in {o \in objs : kids(o) # Fields(o[2])}}
 \* every slot of the model's object exists in the real one, holding the kind of cell the schema says
 SlotErrors(r) ==
@@ -79,7 +89,7 @@ MutateVerdicts(r) ==
     LET other == IF r.mut.side = "c" THEN "o" ELSE "c"
         mine == r.mut.side
     IN  (IF r.exc = "NoSuchCell" THEN {Bad("mutate.nocell", IF r.mut.op = "cell" THEN LastName(r.mut.path) ELSE r.mut.meth, r.exc)}       \* the cell is not there on that side
-         ELSE IF r.exc # "" THEN {Bad("mutate.raised", MutWhat(r), r.exc)} ELSE {})
+         ELSE IF r.exc # "" THEN {Bad("note.mutate.raised", MutWhat(r), r.exc)} ELSE {})   \* the probe could not mutate: nothing to judge
         \cup (IF r.ed[1] # r.ed[2]
               THEN {Bad("frame.export", MutWhat(r), [side |-> other, changed |-> r.edelta])} ELSE {})
         \cup (IF r.wd[other][1] # r.wd[other][2] THEN {Bad("frame.state", MutWhat(r), [side |-> other, changed |-> r.delta])} ELSE {})
@@ -89,14 +99,14 @@ MutateVerdicts(r) ==
 OpWhat(r) == r.f \o " " \o r.lt \o " " \o r.rt
 BinopVerdicts(r) ==
     (IF <<r.f, r.lt, r.rt>> \notin OpTable /\ r.f # "collapse_one" THEN {Bad("binop.unknown", OpWhat(r), 0)} ELSE {})
-    \cup (IF r.exc # "" THEN {Bad("binop.raised", OpWhat(r), r.exc)} ELSE {})
+    \cup (IF r.exc # "" THEN {Bad("note.binop.raised", OpWhat(r), r.exc)} ELSE {})     \* refusing an operand is free
     \cup (IF r.a_before # r.a_after THEN {Bad("binop.left", OpWhat(r), [before |-> r.a_before, after |-> r.a_after])} ELSE {})
     \cup (IF r.b_before # r.b_after THEN {Bad("binop.right", OpWhat(r), [before |-> r.b_before, after |-> r.b_after])} ELSE {})
     \cup (IF r.shared # <<>> THEN {Bad("binop.fresh", OpWhat(r), r.shared)} ELSE {})
     \* block + items = the block's children followed by the items (a named block on the right is, as
     \* documented, appended as one item: b_flat then lists it as that item)
     \cup (IF r.lt \in {"Keyvalues", "KVRoot"} /\ r.exc = "" /\ r.res # r.a_flat \o r.b_flat
-          THEN {Bad("binop.result", OpWhat(r), r.a_flat \o r.b_flat)} ELSE {})
+          THEN {Bad("note.binop.result", OpWhat(r), r.a_flat \o r.b_flat)} ELSE {})    \* what the sum IS is not C09's clause
 
 Verdicts(r) == CASE r.k = "copy" -> CopyVerdicts(r)
                  [] r.k = "mutate" -> MutateVerdicts(r)
